@@ -28,7 +28,8 @@ def computeBias (s : State α) (cnt : Nat → α) : α :=
   if s.n = 0 then (0.0 : α) else
   let r := (List.range s.n).foldl (fun (acc : α × α × α × Nat) i =>   -- (lowerBound, upperBound, sum, freeVars)
       let value := s.g i
-      if s.alpha i == s.boxMin i then
+      if s.boxMin i == s.boxMax i then acc   -- empty box interior (e.g. example weight 0): skipped
+      else if s.alpha i == s.boxMin i then
         (if value > acc.1 then (value, acc.2.1, acc.2.2.1, acc.2.2.2) else acc)
       else if s.alpha i == s.boxMax i then
         (if value < acc.2.1 then (acc.1, value, acc.2.2.1, acc.2.2.2) else acc)
@@ -40,5 +41,72 @@ def computeBias (s : State α) (cnt : Nat → α) : α :=
 def train (n : Nat) (K : Nat → Nat → α) (y : Nat → Bool) (C eps : α) (bias shrink : Bool) (maxIter : Nat) :
     State α × Bool × Nat :=
   solve (if bias then 1 else 2) eps maxIter (csvmInit n K y C bias shrink) 0 0
+
+/-- `CSVMProblem` (class-specific `C`: `Cn` for label 0, `Cp` for label 1) and `GeneralQuadraticProblem` on weighted
+data (per-example box `C·w_k`; the unweighted problem is `w = 1`) -/
+def csvmInit2 (n : Nat) (K : Nat → Nat → α) (y : Nat → Bool) (Cn Cp : α) (w : Nat → α) (bias shrink : Bool) : State α :=
+  State.init n K bias shrink (fun k => if y k then (1.0 : α) else -(1.0 : α))
+    (fun k => if y k then (0.0 : α) else -(Cn * w k)) (fun k => if y k then Cp * w k else (0.0 : α))
+
+def train2 (n : Nat) (K : Nat → Nat → α) (y : Nat → Bool) (Cn Cp : α) (w : Nat → α) (eps : α) (bias shrink : Bool)
+    (maxIter : Nat) : State α × Bool × Nat :=
+  solve (if bias then 1 else 2) eps maxIter (csvmInit2 n K y Cn Cp w bias shrink) 0 0
+
+/-- `CSvmTrainer::optimize`, warm start: the previous coefficients `a1` are clipped to the per-example box; with bias
+the heavier side (positive or negative coefficients) is rescaled so that the start vector sums to zero -- but only if
+clipping changed a coefficient (a start vector that fits the box is left untouched); then `setInitialSolution` -/
+def warmStartVector (s : State α) (a1 : Nat → α) (bias : Bool) : Nat → α :=
+  let clipped : Nat → α := fun k => smax (smin (a1 k) (s.U k)) (s.L k)
+  if !bias then clipped else
+  let sums := (List.range s.n).foldl (fun (acc : α × α) i =>
+      if clipped i > (0.0 : α) then (acc.1 + clipped i, acc.2) else (acc.1, acc.2 - clipped i)) ((0.0 : α), (0.0 : α))
+  let anyClipped : Bool := (List.range s.n).any fun i => !(clipped i == a1 i)
+  if !anyClipped || sums.1 == sums.2 then clipped else
+  let shrinkPos : Bool := sums.1 > sums.2
+  let factor := if shrinkPos then sums.2 / sums.1 else sums.1 / sums.2
+  fun k => if (decide (clipped k > (0.0 : α)) == shrinkPos) && !(clipped k == (0.0 : α)) then clipped k * factor else clipped k
+
+/-- second training of a warm-started `CSvmTrainer` -/
+def train2Warm (n : Nat) (K : Nat → Nat → α) (y : Nat → Bool) (Cn Cp : α) (w : Nat → α) (eps : α) (bias shrink : Bool)
+    (maxIter : Nat) (a1 : Nat → α) : State α × Bool × Nat :=
+  let s0 := csvmInit2 n K y Cn Cp w bias shrink
+  solve (if bias then 1 else 2) eps maxIter (s0.setInitialSolution (warmStartVector s0 a1 bias)) 0 0
+
+/-- `EpsilonSvmTrainer::trainSVM`: `2n` variables over the 2×2 block matrix `[[K,K],[K,K]]`, variable `k < n` is
+`alpha_k ∈ [0,C]` with linear term `y_k − tube`, variable `n+k` is `alpha*_k ∈ [−C,0]` with `y_k + tube` -/
+def epsInit (n : Nat) (K : Nat → Nat → α) (y : Nat → α) (C tube : α) (shrink : Bool) : State α :=
+  State.init (2 * n) (fun a b => K (a % n) (b % n)) true shrink
+    (fun k => if k < n then y k - tube else y (k - n) + tube)
+    (fun k => if k < n then (0.0 : α) else -C) (fun k => if k < n then C else (0.0 : α))
+
+/-- coefficients of the regression model: `alpha_k + alpha*_k` of the un-permuted solution -/
+def epsCoefficients (n : Nat) (s : State α) (zero : α) : Nat → α :=
+  fun k => unpermutedAlpha s zero k + unpermutedAlpha s zero (n + k)
+
+/-- the offset loop of `EpsilonSvmTrainer` (every variable classified by its own box, `std::max` / `std::min`) -/
+def epsOffset (s : State α) (cnt : Nat → α) : α :=
+  let r := (List.range s.n).foldl (fun (acc : α × α × α × Nat) i =>
+      let value := s.g i
+      if s.alpha i == s.boxMin i then (smax value acc.1, acc.2.1, acc.2.2.1, acc.2.2.2)
+      else if s.alpha i == s.boxMax i then (acc.1, smin value acc.2.1, acc.2.2.1, acc.2.2.2)
+      else (acc.1, acc.2.1, acc.2.2.1 + value, acc.2.2.2 + 1))
+    (-(1.0e100 : α), (1.0e100 : α), (0.0 : α), 0)
+  if r.2.2.2 > 0 then r.2.2.1 / cnt r.2.2.2 else (0.5 : α) * (r.1 + r.2.1)
+
+/-- `OneClassSvmTrainer::trainSVM`: `BoxedSVMProblem` with `alpha = 1/n`, zero linear term, box `[0, 1/(nu·n)]`;
+`nF` is `n` as a scalar -/
+def oneClassInit (n : Nat) (K : Nat → Nat → α) (nu nF : α) (shrink : Bool) : State α :=
+  State.initWith n K true shrink (fun _ => (0.0 : α)) (fun _ => (0.0 : α)) (fun _ => (1.0 : α) / (nu * nF))
+    (fun _ => (1.0 : α) / nF)
+
+/-- the offset loop of `OneClassSvmTrainer` (tests `alpha == 0` / `alpha == upper`, `std::max`/`std::min`) -/
+def oneClassOffset (s : State α) (upper : α) (cnt : Nat → α) : α :=
+  let r := (List.range s.n).foldl (fun (acc : α × α × α × Nat) i =>
+      let value := s.g i
+      if s.alpha i == (0.0 : α) then (smax value acc.1, acc.2.1, acc.2.2.1, acc.2.2.2)
+      else if s.alpha i == upper then (acc.1, smin value acc.2.1, acc.2.2.1, acc.2.2.2)
+      else (acc.1, acc.2.1, acc.2.2.1 + value, acc.2.2.2 + 1))
+    (-(1.0e100 : α), (1.0e100 : α), (0.0 : α), 0)
+  if r.2.2.2 > 0 then r.2.2.1 / cnt r.2.2.2 else (0.5 : α) * (r.1 + r.2.1)
 
 end SharkVerif.SvmTrainer
